@@ -7,6 +7,7 @@ and returns a TU object with every top-level declaration in namespace libcellml,
 source locations restored (clang prints file/line differentially), and indexes by id and by
 demangled qualified signature."""
 import bisect
+import re
 import json
 import os
 import pickle
@@ -63,12 +64,25 @@ class TU:
         when the name is not overloaded."""
         if sig in self.funcs:
             return self.funcs[sig]
-        c = [s for s in self.funcs if s.split("(")[0] == sig]
+        want = _norm(sig)
+        c = [s for s in self.funcs if _norm(s) == want]
+        if len(c) == 1:
+            return self.funcs[c[0]]
+        # members of closure types (lambdas) live "inside" a function: `f(...)::$_0::operator()`
+        c = [s for s in self.funcs if _norm(s).split("(")[0] == want and not re.search(r"\)( const)?::", s) and "{lambda" not in s]
         if len(c) == 1:
             return self.funcs[c[0]]
         if not c:
             raise Undecided("extraction: function %s not found in %s (renamed or removed)" % (sig, self.name))
         raise Undecided("extraction: %s is ambiguous in %s: %s" % (sig, self.name, c))
+
+
+def _norm(s):
+    import re
+    s = s.replace("[abi:cxx11]", "")
+    s = s.replace("std::__cxx11::basic_string<char, std::char_traits<char>, std::allocator<char> >", "std::string")
+    s = re.sub(r"\s+", " ", s).replace(" >", ">").replace("> >", ">>")
+    return s.strip()
 
 
 _dem_cache = {}
